@@ -22,11 +22,12 @@ type lessFn = func(n1, n2 *gorums.RawNode) bool
 func sortMain(args []string) {
 	cf := commonFlags("sort", args, nil)
 	start := time.Now()
-	sum := newSum("sort", cf.seed, "cases = (node slice of length 0..40 drawn with repetition of ids/ports/error flags from a pool built through the public constructors, key sequence of length 1..3); "+
+	sum := newSum("sort", cf.seed, "cases = (node slice of length 0..40 drawn with repetition of ids/ports/error flags from a pool built through the public constructors (IPv4 and IPv6 literals), key sequence of length 1..3); "+
 		"distinct non-trivial = distinct (key sequence, length bucket, has ties under first key, has errors) tuples with at least one tie under the first key")
 	// pool: 3 managers x 8 nodes; the same ids occur in each manager, ports repeat across hosts
 	var pool []*gorums.RawNode
 	var mgrs []*gorums.RawManager
+	wantPort := map[string]int{} // canonical address (as given to the constructor) -> its port
 	for m := 0; m < 3; m++ {
 		mgr := gorums.NewRawManager(gorums.WithDialTimeout(50*time.Millisecond),
 			gorums.WithGrpcDialOptions(grpc.WithTransportCredentials(insecure.NewCredentials())))
@@ -35,6 +36,19 @@ func sortMain(args []string) {
 		for i := 0; i < 8; i++ {
 			port := 20000 + (i%4)*7 + m // ports repeat inside a manager (different hosts) and across managers
 			addr := fmt.Sprintf("127.0.%d.%d:%d", m+1, i+1, port)
+			if m == 2 {
+				// the third manager's nodes have IPv6 literals (loopback, global, zoned link-local)
+				addr = []string{"[::1]:%d", "[2001:db8::%d]:%d", "[fe80::%d%%eth0]:%d"}[i%3]
+				if i%3 == 0 {
+					addr = fmt.Sprintf(addr, port+100*i) // one host: distinct ports
+				} else {
+					addr = fmt.Sprintf(addr, i+1, port)
+				}
+			}
+			wantPort[addr] = port
+			if m == 2 && i%3 == 0 {
+				wantPort[addr] = port + 100*i
+			}
 			idm[addr] = uint32(1+(i*3+m)%6) + uint32(100*(i/6))
 		}
 		// ids must be unique per manager
@@ -71,7 +85,15 @@ func sortMain(args []string) {
 		lines = readLines(cf.replay)
 	}
 	someErr := errors.New("some error")
-	port := func(n *gorums.RawNode) int { p, _ := strconv.Atoi(n.Port()); return p }
+	// the port of a node is the port of the address it was created with (not what Port() says: Port() is under test)
+	port := func(n *gorums.RawNode) int { return wantPort[n.Address()] }
+	for _, n := range pool {
+		p, perr := strconv.Atoi(n.Port())
+		if w, ok := wantPort[n.Address()]; !ok || perr != nil || p != w {
+			sum.mismatch(Mismatch{Property: "C19", Case: "sort node=" + n.Address(), Expected: fmt.Sprintf("Address() is the address given to the constructor and Port() its port (%d)", w),
+				Observed: fmt.Sprintf("Address()=%q Port()=%q", n.Address(), n.Port())})
+		}
+	}
 	render := func(id int, keys []string, nodes []*gorums.RawNode, errs map[*gorums.RawNode]bool) string {
 		var ns []string
 		for _, n := range nodes {
